@@ -260,12 +260,12 @@ fn proc_hashes(prog: &Prog) -> BTreeMap<String, Word> {
     for p in &prog.procs {
         let mut probe = prog.clone();
         probe.body = vec![Node::ProcRef(p.name.clone())];
-        let (program, _) = assemble(&probe).expect("probe program must assemble");
+        let (program, _) = assemble(&probe).expect("SUBJECT: probe program must assemble");
         match run_program(&program, &[], &[]) {
             Outcome::Ok(s) => {
                 out.insert(p.name.clone(), [s[3], s[2], s[1], s[0]]);
             }
-            o => panic!("probe program failed: {}", o.brief()),
+            o => panic!("SUBJECT: probe program failed: {}", o.brief()),
         }
     }
     out
@@ -344,7 +344,7 @@ impl<'a> M<'a> {
         let case = || json!({"init": init, "history": format!("{history:?}"), "src": built.prog.to_source(), "kernel": built.prog.kernel_source(), "advice": built.advice});
         let (program, _) = match assemble(&built.prog) {
             Ok(x) => x,
-            Err(e) => panic!("history program must assemble: {e}\n{}\n{:?}", built.prog.to_source(), built.prog.kernel_source()),
+            Err(e) => panic!("SUBJECT: history program must assemble: {e}\n{}\n{:?}", built.prog.to_source(), built.prog.kernel_source()),
         };
         let needs_hashes = history.iter().any(|a| matches!(a, Act::Caller | Act::Enter(FrameKind::DynCall | FrameKind::DynExec, _)));
         let mut hashes = if needs_hashes { proc_hashes(&built.prog) } else { BTreeMap::new() };
